@@ -18,12 +18,16 @@
  *                 g_pos, but no successful fclose yet: may or may not be on disk
  *      S_COMPLETE holds the original and was closed successfully (or is the original)
  *  - Every stub may fail (nondet), fread/fwrite may be short, fclose may fail (data then
- *    NOT guaranteed on disk: state stays S_MAYBE/S_PARTIAL), readdir order is arbitrary.
+ *    NOT guaranteed on disk: state stays S_MAYBE/S_PARTIAL), readdir returns the entries
+ *    in any order and may fail (NULL, errno != 0) at any call.
  *  - KILL: every stub starts with CRASH_POINT(): the process may die there; the point
- *    invariant C09_POINT_INV is asserted at that moment.  die() asserts it too.
+ *    invariant (C09_POINT_ASSERT: INV_CRASH with -DC09_CRASH, else INV_NOLOSS) is asserted
+ *    at that moment.  die() asserts it too (VERIF_DIE_HOOK).
  *    What survives a kill: the ghost state as it is (bytes handed to write(2) survive;
  *    stdio-buffered bytes are only S_MAYBE).  Each stub is atomic w.r.t. a kill, except
- *    json_serialize_to_file_pretty, which has inner crash points (open/write/close). */
+ *    json_serialize_to_file_pretty, which has inner crash points (open/write/close).
+ * This file: ghost state, invariants, path encoder.  The stubs themselves are in
+ * c09_fs_post.h, included AFTER ovni.c (the invariants read rproc / rthread). */
 #ifndef C09_FS_H
 #define C09_FS_H
 
@@ -96,7 +100,7 @@ char g_xname[12];
 #define FS_FRAME_FILES g_st, g_jfin, g_fsfault, __CPROVER_errno, \
 	g_in_open, g_in_tree, g_in_id, g_in_err, g_in_pos, g_in_len, g_in_byte, g_in_gen, \
 	g_out_open, g_out_tree, g_out_id, g_out_err, g_out_pos, g_out_match, g_out_gen
-#define FS_FRAME g_st, g_jfin, g_fsfault, g_dirent, g_dmask, __CPROVER_errno, \
+#define FS_FRAME g_st, g_jfin, g_fsfault, g_dirent, g_dmask, g_rmdir_errno, __CPROVER_errno, \
 	g_in_open, g_in_tree, g_in_id, g_in_err, g_in_pos, g_in_len, g_in_byte, g_in_gen, \
 	g_out_open, g_out_tree, g_out_id, g_out_err, g_out_pos, g_out_match, g_out_gen
 /* no output stream open: g_st is the whole truth; counters cannot wrap (tiered: a caller's bound implies its callees') */
